@@ -106,7 +106,7 @@ def build(tier, seed):
         har = har.replace('/*SAW_UNIT_MACRO*/', 'macro_rules! saw_unit { ($t:ident, $l:expr, $o:expr) => { %s } }' % ('{ let _ = $t.saw_bitfield_unit($l, $o); }' if two else '{ let _ = $o; $t.saw_bitfield_unit($l); }'))
         text = (pre + '\n' + m.group(0) + '\n' +
                 'pub mod layout_mod { use super::*; ' + layout + '}\npub(crate) use layout_mod::Layout;\n' +
-                'pub mod helpers { use super::*; ' + m2.group(0) + '\n' + blob + '\n' + integer_type + '\n' + bfu + '}\n' +
+                'pub mod helpers { use super::*; use super::struct_layout::*; ' + m2.group(0) + '\n' + blob + '\n' + integer_type + '\n' + bfu + '}\n' +
                 'pub mod struct_layout { use super::*; ' + sl + '}\n' + har)
         kern = Kernel(name='layout')
         kern.files = {'src/lib.rs': text}
@@ -185,7 +185,7 @@ def build(tier, seed):
                         desc='REAL CompInfo::codegen region on an opaque type of alignment %d, size <= 64*align, C definition packed or not: one blob, exact size/alignment, never packed+align' % a_, sample={'opaque': True, 'align': a_}))
         har = har.replace('/*GENERATED*/', '\n    '.join(gen))
         text = (pre + '\n' + m.group(0) + '\n' + 'pub mod layout_mod { use super::*; ' + layout + '}\npub(crate) use layout_mod::Layout;\n' +
-                'pub mod helpers { use super::*; ' + blob + '\n' + integer_type + '\npub mod ast_ty { pub fn int_expr(v: i64) -> usize { v as usize } } }\n' +
+                'pub mod helpers { use super::*; use super::struct_layout::*; ' + blob + '\n' + integer_type + '\npub mod ast_ty { pub fn int_expr(v: i64) -> usize { v as usize } } }\n' +
                 'pub mod struct_layout { use super::*; ' + sl + '}\npub(crate) use struct_layout::StructLayoutTracker;\n' + har)
         kk_ = Kernel(name='driver')
         kk_.files = {'src/lib.rs': text}
